@@ -232,6 +232,10 @@ def load_hdf5(path, meta_only=False):
             dataset_dict = {}
             for dkey in h5["data"]:
                 dset = h5["data"][dkey]
+                if "path" not in dset.attrs:
+                    # left behind by a `save_hdf5` call that failed
+                    warnings.warn(f"Ignoring incomplete data '{dkey}'!")
+                    continue
                 dbin = dset[...]
                 name = dkey + "_" + pathlib.Path(dset.attrs["path"]).name
                 dpath = pathlib.Path(tdir) / name
@@ -240,7 +244,9 @@ def load_hdf5(path, meta_only=False):
         # load individual curves
         for akey in h5["analysis"]:
             h5gr = h5["analysis"][akey]
-            if "fit" not in h5gr:
+            if "fit" not in h5gr or "user rate" not in h5gr.attrs:
+                # `save_hdf5` writes the user attributes last. If they
+                # are missing, then saving failed somewhere on the way.
                 warnings.warn(f"Ignoring incomplete '{akey}'!")
                 continue
             attrs = h5gr.attrs
@@ -309,6 +315,9 @@ def save_hdf5(h5path, indent, user_rate, user_name, user_comment, h5mode="a"):
         # store raw experimental data as binary array
         data = h5.require_group("data")
         dhash = hash_file(indent.path)
+        if dhash in data and "path" not in data[dhash].attrs:
+            # left behind by a previous call that failed (see `load_hdf5`)
+            del data[dhash]
         if dhash not in data:
             meas = data.create_dataset(
                 dhash,
